@@ -133,10 +133,10 @@ func (f *Funcs) PushBlobChunked(ctx context.Context, repo string, chunkSize int)
 }
 
 func (f *Funcs) PushBlobChunkedResume(ctx context.Context, repo, id string, offset int64, chunkSize int) (BlobWriter, error) {
-	if f != nil && f.PushBlobChunked_ != nil {
+	if f != nil && f.PushBlobChunkedResume_ != nil {
 		return f.PushBlobChunkedResume_(ctx, repo, id, offset, chunkSize)
 	}
-	return nil, f.newError(ctx, "PushBlobChunked", repo)
+	return nil, f.newError(ctx, "PushBlobChunkedResume", repo)
 }
 
 func (f *Funcs) MountBlob(ctx context.Context, fromRepo, toRepo string, digest Digest) (Descriptor, error) {
